@@ -123,9 +123,12 @@ def predictor_oracle(ctx, rep):
     from bingo.evaluation.evaluation import Evaluation
     from bingo.evolutionary_algorithms.age_fitness import AgeFitnessEA
     rng = ctx.rng
-    for trial in range(ctx.n(6, 30)):
+    for trial in range(ctx.n(12, 40)):
         np.random.seed(rng.randrange(2 ** 31))
-        n = rng.choice([30, 60])
+        # small data sets (<= 10 points) and ratio 1.0 make the predictor as long as the data: it is still a resample WITH
+        # replacement, not the full data
+        n = [8, 10, 30, 60][trial % 4] if trial < 8 else rng.choice([8, 10, 30, 60])
+        ratio = 1.0 if trial % 5 == 4 else 0.3
         x = np.linspace(-2, 2, n).reshape(-1, 1)
         y = x ** 2 + 0.5 * x
         full = ExplicitTrainingData(x, y)
@@ -140,7 +143,7 @@ def predictor_oracle(ctx, rep):
             warnings.simplefilter("ignore")
             attach = ["constructor", "assigned later", "via SerialArchipelago"][trial % 3]
             isl = FitnessPredictorIsland(ea, gen, 12, predictor_population_size=4, predictor_update_frequency=rng.choice([2, 3]),
-                                         predictor_size_ratio=0.3, predictor_computation_ratio=rng.choice([0.2, 0.8]), trainer_population_size=3,
+                                         predictor_size_ratio=ratio, predictor_computation_ratio=rng.choice([0.2, 0.8]), trainer_population_size=3,
                                          trainer_update_frequency=rng.choice([2, 4]), hall_of_fame=hof if attach == "constructor" else None)
             arch = None
             if attach == "assigned later":
@@ -148,6 +151,7 @@ def predictor_oracle(ctx, rep):
             elif attach == "via SerialArchipelago":
                 arch = SerialArchipelago(isl, num_islands=2, hall_of_fame=hof)
             rep.count("predictor_hof_attached", attach)
+            rep.count("predictor_data", f"points={n} ratio={ratio}")
             truth = ExplicitRegression(training_data=full)
             for g in range(ctx.n(5, 10)):
                 (arch or isl).evolve(1)
